@@ -44,6 +44,11 @@ def run(ctx):
   from . import c08
   ctx.borrow(c08.rule_accum, "R-C17-BYVALUE")      # jointly judged signatures: what one issuer contributes survives the next issuer
   ctx.borrow(c10.rule_dup, "R-C17-BYVALUE")
+  # jointly judged RSA keys: whether two moduli meet in the product / remainder tree must not depend on how many other keys are in the batch or where
+  # they sit (an unpaired node of an odd level carries its own partial sum upwards) - shared with C03
+  from . import c03
+  ctx.borrow(c03.rule_tree, "R-C17-BYVALUE")
+  ctx.borrow(c03.rule_remainder, "R-C17-BYVALUE")
   ctx.borrow(c02.rule_release, "R-C17-BYVALUE", lambda r: r.where.endswith("BatchDLOfDifferences"))
   # the entry recorded for an artifact (or issuer key) is created and decided in that artifact's own pass of the loop (shared with C16), and the cached
   # baby-step table really holds the entries its size descriptor claims (shared with C10)
@@ -53,7 +58,7 @@ def run(ctx):
   ctx.expect("R-C17-STATELESS", 8, "seven frozen writes + scan")
   ctx.expect("R-C17-INDIVIDUAL", 17, "17 individual checks")
   ctx.expect("R-C17-CACHE", 3 + 5, "two table caches + multiples memo + table coverage (shared with C10)")
-  ctx.expect("R-C17-BYVALUE", 9, "BatchGCD + partitions + pairwise difference search (2 + 3 shared rows)")
+  ctx.expect("R-C17-BYVALUE", 25, "BatchGCD + partitions + pairwise difference search (2 + 3 shared rows) + product / remainder tree (16 shared rows)")
 
 
 def self_writes(fn):
